@@ -113,6 +113,49 @@ PROBES = {
 }
 PROBE_MODULES = {"m1": "var w = %s; fn f() { return w[0]; }" % WIT}
 
+# ---- 6. every operation of Natives.tla with TEMPORARY operands: the operands are expressions, not variables, so the only
+#         thing keeping them (and what they hold) alive while the operation allocates is the VM's own rooting discipline
+def inline_cases(rep, tier, seed):
+    from checks import c02
+    forms = ["invoke0", "invoke1", "index", "call", "misc", "binop", "range"]
+    out = []
+    states = 0
+    for f in forms:
+        cs, n = c02.tlc_cases(rep, f, tier)
+        states += n
+        out += [c for c in cs if c["r"]["c"] != "trigger" and c["f"] not in ("derive", "forin", "throw")
+                and not (c["f"] == "call" and c["ops"][0] == "nat_clock")]          # the clock is the one nondeterministic operation
+    rng = random.Random(seed)
+    if tier == "quick" and len(out) > 12000:
+        out = rng.sample(out, 12000)
+    return out, states
+
+
+def inline_src(c):
+    from checks import c02
+    ops = ["(%s)" % c02.EXPR[x] for x in c["ops"]]
+    f, name = c["f"], c["name"]
+    if f == "invoke":
+        e = "%s.%s(%s)" % (ops[0], name, ", ".join(ops[1:]))
+    elif f == "getprop":
+        e = "%s.%s" % (ops[0], name)
+    elif f == "call":
+        e = "%s(%s)" % (ops[0], ", ".join(ops[1:]))
+    elif f == "binop":
+        e = "%s %s %s" % (ops[0], name, ops[1])
+    elif f == "index":
+        e = "%s[%s]" % (ops[0], ops[1])
+    elif f == "range":
+        e = "%s..%s" % (ops[0], ops[1])
+    elif f == "mapkey":
+        e = "{%s: %s}" % (ops[0], ops[0])
+    elif f == "show":
+        e = '"${%s}" + String.from(%s)' % (ops[0], ops[0])
+    else:
+        return None
+    return "try { var r = %s; junk(); print(r); } catch e { print(type(e)); print(e.context); }" % e
+
+
 
 def main(tier, seed):
     rep = Report(PROP, tier, seed, "model_checking")
@@ -177,6 +220,18 @@ def main(tier, seed):
         for gc in (("never", "always") if tier == "quick" else ("never", "always", "every:3:1")):
             cases.append({"id": ["scenario", pid, gc], "main": src, "modules": {}, "gc": gc, "quarantine": True, "events": 1, "natives": True})
     rep.coverage["scenario_programs"] = nfam
+    from checks import c02
+    icases, istates = inline_cases(rep, tier, seed)
+    lines = [x for x in (inline_src(c) for c in icases) if x]
+    per = 60
+    nbatch = 0
+    for i in range(0, len(lines), per):
+        src = c02.PRELUDE + PRE + "\n".join(lines[i:i + per]) + "\n"
+        nbatch += 1
+        for gc in ("never", "always"):
+            cases.append({"id": ["operation batch", str(i // per), gc], "main": src, "modules": c02.MODULES, "gc": gc, "quarantine": True, "events": 1})
+    rep.coverage["operations_with_temporary_operands"] = len(lines)
+    rep.coverage["states"] += istates
     builds = [("dev", dev)] + ([("release", rel)] if tier == "thorough" else [])
     nprog = 0
     for bname, binary in builds:
